@@ -64,6 +64,9 @@ def lines(blob, api, cfg, color, filter_tid=None):
     return list(getattr(p, api)(io.BytesIO(blob), tcodes()))
 
 
+TS_MODE = ['up']     # 'down': the records carry DEcreasing timestamps (the order of the stream, not the stamps, says what is earlier)
+
+
 def dump(m, seq):
     recs = []
     ts = 1
@@ -71,6 +74,9 @@ def dump(m, seq):
         r = ALPHA[i][1](ts)
         recs += r
         ts += len(r)
+    if TS_MODE[0] == 'down':
+        n = len(recs)
+        recs = [(1000 + n - k).to_bytes(8, 'little') + r[8:] for k, r in enumerate(recs)]
     return B.v2(MAPS[m], 0, recs)
 
 
@@ -170,6 +176,19 @@ def model(m, seq):
 
 
 def judge_process(m, seq):
+    bad = _judge_process(m, seq)
+    if bad is None and len(seq) >= 2:
+        TS_MODE[0] = 'down'
+        try:
+            bad = _judge_process(m, seq)
+        finally:
+            TS_MODE[0] = 'up'
+        if bad:
+            bad = (bad[0] + ':decreasing-timestamps', bad[1])
+    return bad
+
+
+def _judge_process(m, seq):
     blob = dump(m, seq)
     mod = model(m, seq)
     try:
